@@ -61,7 +61,10 @@ func (m *Mutex) Unlock() {
 type RWMutex struct {
 	writer  bool
 	readers int
-	vc      []uint32
+	// writers blocked in Lock: like the real RWMutex, a pending Lock keeps new
+	// readers out (so a recursive RLock can deadlock behind a waiting writer)
+	waitingWriters int
+	vc             []uint32
 }
 
 func (m *RWMutex) Lock() {
@@ -71,7 +74,11 @@ func (m *RWMutex) Lock() {
 	simrt.Yield(simrt.OpLock)
 	if m.writer || m.readers > 0 {
 		simrt.Probe("rwmutex-contended")
-		simrt.Block("rwmutex-w", func() bool { return !m.writer && m.readers == 0 })
+		m.waitingWriters++
+		func() {
+			defer func() { m.waitingWriters-- }() // also when the task is killed while waiting
+			simrt.Block("rwmutex-w", func() bool { return !m.writer && m.readers == 0 })
+		}()
 	}
 	m.writer = true
 	simrt.HBAcquire(&m.vc)
@@ -107,9 +114,9 @@ func (m *RWMutex) RLock() {
 		return
 	}
 	simrt.Yield(simrt.OpLock)
-	if m.writer {
+	if m.writer || m.waitingWriters > 0 {
 		simrt.Probe("rwmutex-contended")
-		simrt.Block("rwmutex-r", func() bool { return !m.writer })
+		simrt.Block("rwmutex-r", func() bool { return !m.writer && m.waitingWriters == 0 })
 	}
 	m.readers++
 	simrt.HBAcquire(&m.vc)
